@@ -8,7 +8,16 @@ From Cache Require Import Base Invalidator.
 (* ---------- C17 ---------- *)
 Inductive c17case :=
 | C17Seq (skip : Z) (cbs : option (list N)) (obs : list (Z * ires * list N))
-| C17Conc (long : bool) (cbs : list N) (events : list (N * N)) (results : list (N * ires)) (overlap : bool).
+| C17Conc (long : bool) (cbs : list N) (events : list (N * N)) (results : list (N * ires)) (overlap : bool)
+| C17Slow (skip tol : Z) (starts : list Z).   (* instants at which accepted invalidations started their callbacks, ascending *)
+
+(* accepted invalidations are spaced by SkipInterval (tol = allowance for the delay between the acceptance and
+   the first instruction of the callback on a real clock) *)
+Fixpoint spaced (skip tol : Z) (l : list Z) : bool :=
+  match l with
+  | a :: (b :: _) as r => (a + skip - tol <=? b) && spaced skip tol r
+  | _ => true
+  end.
 
 (* concurrent observation: the callback events (caller, cb), in execution order,
    must be a concatenation of complete blocks, each by one accepted caller *)
@@ -57,6 +66,8 @@ Definition check_c17 (c : c17case) : N :=
       else (if p then 1 else 2)%N
   | C17Conc long cbs ev res ov =>
       if C17_obs_conc long cbs ev res ov then 0%N else 2%N
+  | C17Slow skip tol starts =>
+      if spaced skip tol starts && negb (bool_decide (starts = [])) then 0%N else 2%N
   end.
 
 (* ---------- backends: C07, C09, C10, C11, C12, C18 ---------- *)
@@ -356,13 +367,14 @@ Definition check_c03 (c : c03case) : N := code (corr_ok (c03_c c)) (c03_ok c).
 Record c18conc := mkC18C {
   k_stats : list Z;      (* write, delete, hit, miss, expired as reported to the stats tracker *)
   k_seen : list Z;       (* writes, successful deletes, hits, misses, expired reads as seen by callers *)
-  k_expire_all : bool; k_delete_all : bool
+  k_expire_all : bool; k_delete_all : bool;
+  k_results_explained : bool   (* every per-slot history of the run has a linearization: each successful Delete removed an entry *)
 }.
 
 Definition check_c18c (c : c18conc) : N :=
   match k_stats c, k_seen c with
   | [w; d; h; m; x], [w'; d'; h'; m'; x'] =>
-      if (w =? w') && (h =? h') && (m =? m')
+      if k_results_explained c && (w =? w') && (h =? h') && (m =? m')
          && (if k_delete_all c then d' <=? d else d =? d')
          && (if k_expire_all c then x' <=? x else x =? x')
       then 0%N else 2%N
@@ -485,6 +497,7 @@ Definition key_of_tid (sk : list (tid * key)) (t : tid) : option key :=
 Definition C09F_obs (c : fcase) : bool :=
   let sk := spawn_keys (fc_labels c) in
   (fc_final_locks c =? 0) &&
+  C02_obs (impl_trace c) &&   (* nothing returned for k was produced for, or stored under, another key (equal hashes included) *)
   forallb (fun e => match e with
      | FRead t k _ | FWrite t k _ _ _ _ | FBuildStart t k | FBuildEnd t k _ | FReturn t k _ _ =>
          bool_decide (key_of_tid sk t = Some k)
